@@ -13,7 +13,7 @@ SCOPE = ("fidget-core/", "fidget-jit/", "fidget-raster/", "fidget-mesh/")
 
 
 def txt(n):
-    return A.unparse(n).replace(" ", "")
+    return A.ftxt(n)
 
 
 def r1_cancellation(rule, root=None):
